@@ -1,5 +1,636 @@
-//! C10 harness — to be written (see /verif/mc/HARNESS_GUIDE.md).
+//! C10 — SVM models are dual-feasible, KKT-consistent and equal their kernel expansion.
+//!
+//! E1 over (training set, labelling, kernel, C, tol, epochs) x EVERY visiting order the SVC trainer
+//! can draw: the sample order is answered through the `verif-hooks` seam, so all (n!)^(1+epochs)
+//! schedules of a small instance are enumerated (deviation-bounded for n = 6..8). The SVR trainer is
+//! deterministic; it is enumerated over data, epsilon, C, tol and kernels and judged by the
+//! epsilon-insensitive KKT conditions. Kernels are checked against closed forms on all lattice
+//! vector pairs and their Gram matrices for positive semi-definiteness.
+
+use mc_core::oracle::jacobi_eig;
+use mc_core::{self as mc, json, Harness, Job, Plan, Tier, Value};
+use mc_sc::{dm, own_rng, release_rng, take_draws, RngMode};
+use smartcore::linalg::naive::dense_matrix::DenseMatrix;
+use smartcore::svm::svc::{SVCParameters, SVC};
+use smartcore::svm::svr::{SVRParameters, SVR};
+use smartcore::svm::{Kernel, Kernels};
+
+struct C10;
+
+type DM = DenseMatrix<f64>;
+
+#[derive(Clone, Copy, Debug, PartialEq)]
+enum Kn {
+    Linear,
+    Rbf(f64),
+    Poly(f64, f64, f64),
+    Sigmoid(f64, f64),
+}
+
+impl Kn {
+    fn from_name(s: &str) -> Kn {
+        match s {
+            "linear" => Kn::Linear,
+            "rbf" => Kn::Rbf(0.5),
+            "poly" => Kn::Poly(2.0, 1.0, 1.0),
+            "poly3" => Kn::Poly(3.0, 0.5, 0.0),
+            "sigmoid" => Kn::Sigmoid(0.1, 0.0),
+            _ => panic!("unknown kernel {}", s),
+        }
+    }
+    /// closed form, written independently of the library
+    fn eval(&self, a: &[f64], b: &[f64]) -> f64 {
+        let dot: f64 = a.iter().zip(b).map(|(x, y)| x * y).sum();
+        match *self {
+            Kn::Linear => dot,
+            Kn::Rbf(g) => (-g * a.iter().zip(b).map(|(x, y)| (x - y) * (x - y)).sum::<f64>()).exp(),
+            Kn::Poly(d, g, c) => (g * dot + c).powf(d),
+            Kn::Sigmoid(g, c) => (g * dot + c).tanh(),
+        }
+    }
+}
+
+fn jf(v: &Value) -> f64 {
+    v.as_f64().unwrap_or(f64::NAN)
+}
+
+fn jrows(v: &Value) -> Vec<Vec<f64>> {
+    v.as_array().map(|a| a.iter().map(|r| r.as_array().map(|x| x.iter().map(jf).collect()).unwrap_or_default()).collect()).unwrap_or_default()
+}
+
+fn jvec(v: &Value) -> Vec<f64> {
+    v.as_array().map(|a| a.iter().map(jf).collect()).unwrap_or_default()
+}
+
+/// Is there an injective map from support vectors to training rows with equal x such that `ok(sv, row)`?
+fn embed(svs: &[Vec<f64>], rows: &[Vec<f64>], ordered: bool, ok: &dyn Fn(usize, usize) -> bool) -> Option<Vec<usize>> {
+    fn rec(i: usize, start: usize, svs: &[Vec<f64>], rows: &[Vec<f64>], ordered: bool, used: &mut Vec<bool>, map: &mut Vec<usize>, ok: &dyn Fn(usize, usize) -> bool) -> bool {
+        if i == svs.len() {
+            return true;
+        }
+        let from = if ordered { start } else { 0 };
+        for r in from..rows.len() {
+            if !used[r] && rows[r] == svs[i] && ok(i, r) {
+                used[r] = true;
+                map.push(r);
+                if rec(i + 1, r + 1, svs, rows, ordered, used, map, ok) {
+                    return true;
+                }
+                map.pop();
+                used[r] = false;
+            }
+        }
+        false
+    }
+    let mut used = vec![false; rows.len()];
+    let mut map = Vec::new();
+    if rec(0, 0, svs, rows, ordered, &mut used, &mut map, ok) {
+        Some(map)
+    } else {
+        None
+    }
+}
+
+#[allow(clippy::too_many_arguments)]
+fn svc_fit_and_check(site_class: &str, pts: &[Vec<f64>], y: &[f64], kn: Kn, kname: &str, c: f64, tol: f64, epoch: usize, mode: RngMode, queries: &[Vec<f64>]) {
+    let x: DM = dm(pts);
+    let yv = y.to_vec();
+    own_rng(mode);
+    let r = mc::guard(|| match kn {
+        Kn::Linear => SVC::fit(&x, &yv, SVCParameters::default().with_epoch(epoch).with_c(c).with_tol(tol)).map(|m| fit_obs(&m, queries)),
+        Kn::Rbf(g) => SVC::fit(&x, &yv, SVCParameters::default().with_epoch(epoch).with_c(c).with_tol(tol).with_kernel(Kernels::rbf(g))).map(|m| fit_obs(&m, queries)),
+        Kn::Poly(d, g, c0) => SVC::fit(&x, &yv, SVCParameters::default().with_epoch(epoch).with_c(c).with_tol(tol).with_kernel(Kernels::polynomial(d, g, c0))).map(|m| fit_obs(&m, queries)),
+        Kn::Sigmoid(g, c0) => SVC::fit(&x, &yv, SVCParameters::default().with_epoch(epoch).with_c(c).with_tol(tol).with_kernel(Kernels::sigmoid(g, c0))).map(|m| fit_obs(&m, queries)),
+    });
+    let draws = take_draws();
+    release_rng();
+    let n = pts.len();
+    let sched: Vec<usize> = draws.iter().map(|d| d.2).collect();
+    let ctx = format!("x={:?} y={:?} kernel={} C={} tol={} epoch={} Fisher-Yates answers={:?}", pts, y, kname, c, tol, epoch, sched);
+    let site = format!("svc.fit:{}", site_class);
+    if draws.len() != (1 + epoch) * (n - 1) {
+        mc::violation("svc.fit:shuffle-draw-count", format!("{}: expected {} shuffles of {} draws, saw {} draws", ctx, 1 + epoch, n - 1, draws.len()));
+    }
+    let (model, dec, pred) = match r {
+        Err(p) => {
+            mc::violation(format!("{}:panic", site), format!("{}: {}", ctx, p.brief()));
+            return;
+        }
+        Ok(Err(e)) => {
+            mc::violation(format!("{}:error", site), format!("{}: {}", ctx, e));
+            return;
+        }
+        Ok(Ok(o)) => o,
+    };
+    let svs = jrows(&model["instances"]);
+    let w = jvec(&model["w"]);
+    let b = jf(&model["b"]);
+    let classes = jvec(&model["classes"]);
+    let mut cl: Vec<f64> = y.to_vec();
+    cl.sort_by(|a, b| a.partial_cmp(b).unwrap());
+    cl.dedup();
+    if classes != cl {
+        mc::violation(format!("{}:classes", site), format!("{}: model classes {:?}, labels {:?}", ctx, classes, cl));
+        return;
+    }
+    if svs.len() != w.len() || w.iter().any(|v| !v.is_finite()) || !b.is_finite() {
+        mc::violation(format!("{}:non-finite-or-misaligned", site), format!("{}: {} support vectors, w={:?}, b={}", ctx, svs.len(), w, b));
+        return;
+    }
+    // support vectors are training rows; each coefficient lies in [0,C] in the direction of its own sample's class
+    let sgn = |r: usize| if y[r] == cl[1] { 1.0 } else { -1.0 };
+    let slack = 1e-12 * c;
+    let any_rows = embed(&svs, pts, false, &|_, _| true);
+    if any_rows.is_none() {
+        mc::violation(format!("{}:sv-not-training-rows", site), format!("{}: support vectors {:?} are not (distinct) training rows", ctx, svs));
+    } else if embed(&svs, pts, false, &|i, r| {
+        let v = sgn(r) * w[i];
+        v >= -slack && v <= c + slack
+    })
+    .is_none()
+    {
+        mc::violation(format!("{}:box-infeasible", site), format!("{}: dual coefficients {:?} of support vectors {:?} are not within [0,C] in the direction of their samples' classes", ctx, w, svs));
+    }
+    let sw: f64 = w.iter().sum();
+    if sw.abs() > 1e-9 * n as f64 * c {
+        mc::violation(format!("{}:sum-nonzero", site), format!("{}: dual coefficients {:?} sum to {}", ctx, w, sw));
+    }
+    // decision function = kernel expansion (closed-form kernel), prediction = sign rule
+    for (qi, q) in queries.iter().enumerate() {
+        let terms: Vec<f64> = svs.iter().zip(&w).map(|(s, wi)| wi * kn.eval(s, q)).collect();
+        let want = terms.iter().sum::<f64>() + b;
+        let mag = terms.iter().map(|t| t.abs()).sum::<f64>() + b.abs();
+        if !(dec[qi] - want).abs().le(&(1e-12 * (1.0 + mag))) {
+            mc::violation(format!("{}:decision-not-expansion", site), format!("{}: decision_function({:?})={} but sum_i w_i K(sv_i,x)+b={}", ctx, q, dec[qi], want));
+            break;
+        }
+        let want_label = if dec[qi] > 0.0 { cl[1] } else { cl[0] };
+        if pred[qi] != want_label {
+            mc::violation(format!("{}:predict-sign", site), format!("{}: decision {} at {:?} but predicted label {} (classes {:?})", ctx, dec[qi], q, pred[qi], cl));
+            break;
+        }
+    }
+    if w.iter().any(|v| (v.abs() - c).abs() <= slack) {
+        mc::count("svc_clipped_at_C");
+    }
+    if sched.iter().any(|a| *a != 0) {
+        mc::count("svc_non_identity_orders");
+    }
+    mc::count("svc_fits");
+    mc::nontrivial();
+    let mut obs: Vec<f64> = w.iter().map(|v| mc::hash::round_sig(*v, 10)).collect();
+    obs.push(mc::hash::round_sig(b, 10));
+    obs.extend(svs.iter().flatten());
+    mc::outcome(mc::hash::h_f64s(&obs));
+    mc::describe(|| json!({"op": "SVC::fit", "x": pts, "y": y, "kernel": kname, "C": c, "tol": tol, "epoch": epoch, "fisher_yates_answers": sched, "support_vectors": svs, "w": w, "b": b}));
+}
+
+fn fit_obs<K: Kernel<f64, Vec<f64>> + serde::Serialize>(m: &SVC<f64, DM, K>, queries: &[Vec<f64>]) -> (Value, Vec<f64>, Vec<f64>) {
+    let q: DM = dm(queries);
+    let v = serde_json::to_value(m).expect("serialise SVC");
+    let dec = m.decision_function(&q).expect("decision_function");
+    let pred = m.predict(&q).expect("predict");
+    (v, dec, pred)
+}
+
+fn svr_obs<K: Kernel<f64, Vec<f64>> + serde::Serialize>(m: &SVR<f64, DM, K>, queries: &[Vec<f64>]) -> (Value, Vec<f64>) {
+    let q: DM = dm(queries);
+    (serde_json::to_value(m).expect("serialise SVR"), m.predict(&q).expect("predict"))
+}
+
+const LABELS: &[(f64, f64)] = &[(-1.0, 1.0), (2.0, 3.0), (-3.0, 7.0)];
+
+fn svc_case(job: &Job) {
+    let n = job.u("n");
+    let dim = job.u("dim");
+    let kname = job.s("kernel").to_string();
+    let kn = Kn::from_name(&kname);
+    let (c, tol, epoch) = (job.f("C"), job.f("tol"), job.u("epoch"));
+    let enc = LABELS[job.u("enc")];
+    let dev = job.b("dev");
+    let pts: Vec<Vec<f64>> = if let Some(fixed) = job.params["points"].as_array() {
+        fixed.iter().map(|p| p.as_array().unwrap().iter().map(jf).collect()).collect()
+    } else {
+        let pre: Vec<usize> = job.params["pre"].as_array().map(|a| a.iter().map(|x| x.as_u64().unwrap() as usize).collect()).unwrap_or_default();
+        let mut it = pre.into_iter();
+        (0..n).map(|_| (0..dim).map(|_| it.next().unwrap_or_else(|| mc::choose(3)) as f64).collect()).collect()
+    };
+    // every labelling with both classes present
+    let lab = 1 + mc::choose((1usize << n) - 2);
+    let y: Vec<f64> = (0..n).map(|i| if (lab >> i) & 1 == 1 { enc.1 } else { enc.0 }).collect();
+    let queries: Vec<Vec<f64>> = if dim == 1 { (0..9).map(|i| vec![i as f64 * 0.5 - 1.0]).collect() } else { (0..16).map(|i| vec![(i % 4) as f64 * 0.75 - 0.25, (i / 4) as f64 * 0.75 - 0.25]).collect() };
+    let mode = if dev { RngMode::Deviations } else { RngMode::All };
+    svc_fit_and_check(if dev { "deviation-bounded-order" } else { "any-order" }, &pts, &y, kn, &kname, c, tol, epoch, mode, &queries);
+}
+
+fn svr_case(job: &Job) {
+    let n = job.u("n");
+    let kname = job.s("kernel").to_string();
+    let kn = Kn::from_name(&kname);
+    let (c, tol, eps) = (job.f("C"), job.f("tol"), job.f("eps"));
+    let pts: Vec<Vec<f64>> = if let Some(fixed) = job.params["points"].as_array() {
+        fixed.iter().map(|p| p.as_array().unwrap().iter().map(jf).collect()).collect()
+    } else {
+        (0..n).map(|_| vec![mc::choose(3) as f64]).collect()
+    };
+    let yal = [-1.0, 0.0, 2.0];
+    let y: Vec<f64> = if let Some(fixed) = job.params["targets"].as_array() { fixed.iter().map(jf).collect() } else { (0..n).map(|_| yal[mc::choose(3)]).collect() };
+    let x: DM = dm(&pts);
+    let r = mc::guard(|| match kn {
+        Kn::Linear => SVR::fit(&x, &y, SVRParameters::default().with_eps(eps).with_c(c).with_tol(tol)).map(|m| svr_obs(&m, &pts)),
+        Kn::Rbf(g) => SVR::fit(&x, &y, SVRParameters::default().with_eps(eps).with_c(c).with_tol(tol).with_kernel(Kernels::rbf(g))).map(|m| svr_obs(&m, &pts)),
+        Kn::Poly(d, g, c0) => SVR::fit(&x, &y, SVRParameters::default().with_eps(eps).with_c(c).with_tol(tol).with_kernel(Kernels::polynomial(d, g, c0))).map(|m| svr_obs(&m, &pts)),
+        Kn::Sigmoid(g, c0) => SVR::fit(&x, &y, SVRParameters::default().with_eps(eps).with_c(c).with_tol(tol).with_kernel(Kernels::sigmoid(g, c0))).map(|m| svr_obs(&m, &pts)),
+    });
+    let ctx = format!("x={:?} y={:?} kernel={} eps={} C={} tol={}", pts, y, kname, eps, c, tol);
+    let site = "svr.fit";
+    let (model, pred) = match r {
+        Err(p) => {
+            mc::violation(format!("{}:panic", site), format!("{}: {}", ctx, p.brief()));
+            return;
+        }
+        Ok(Err(e)) => {
+            mc::violation(format!("{}:error", site), format!("{}: {}", ctx, e));
+            return;
+        }
+        Ok(Ok(o)) => o,
+    };
+    let svs = jrows(&model["instances"]);
+    let w = jvec(&model["w"]);
+    let b = jf(&model["b"]);
+    if svs.len() != w.len() || w.iter().any(|v| !v.is_finite()) || !b.is_finite() {
+        mc::violation(format!("{}:non-finite-or-misaligned", site), format!("{}: {} support vectors, w={:?}, b={}", ctx, svs.len(), w, b));
+        return;
+    }
+    let slack_c = 1e-12 * c;
+    if w.iter().any(|v| v.abs() > c + slack_c) {
+        mc::violation(format!("{}:box-infeasible", site), format!("{}: coefficients {:?} exceed C", ctx, w));
+    }
+    let sw: f64 = w.iter().sum();
+    if sw.abs() > 1e-9 * n as f64 * c {
+        mc::violation(format!("{}:sum-nonzero", site), format!("{}: coefficients {:?} sum to {}", ctx, w, sw));
+    }
+    // prediction = kernel expansion
+    let f: Vec<f64> = pts.iter().map(|q| svs.iter().zip(&w).map(|(s, wi)| wi * kn.eval(s, q)).sum::<f64>() + b).collect();
+    for i in 0..n {
+        let mag: f64 = svs.iter().zip(&w).map(|(s, wi)| (wi * kn.eval(s, &pts[i])).abs()).sum::<f64>() + b.abs();
+        if !(pred[i] - f[i]).abs().le(&(1e-12 * (1.0 + mag))) {
+            mc::violation(format!("{}:predict-not-expansion", site), format!("{}: predict({:?})={} but sum_i w_i K(sv_i,x)+b={}", ctx, pts[i], pred[i], f[i]));
+            break;
+        }
+    }
+    // epsilon-insensitive KKT at every training point, for SOME assignment of the (row-ordered) support
+    // vectors to training rows with equal x (duplicate x rows make the assignment ambiguous)
+    let t = tol + 1e-9;
+    let at_c = |v: f64| (v.abs() - c).abs() <= 1e-9 * c;
+    let tiny = |v: f64| v.abs() <= 1e-12 * c;
+    let kkt = |wi: f64, r: f64| -> bool {
+        // r = y - f(x)
+        if tiny(wi) && r.abs() <= eps + t {
+            return true;
+        }
+        if wi > 0.0 && !at_c(wi) && !tiny(wi) {
+            return (r - eps).abs() <= t;
+        }
+        if wi < 0.0 && !at_c(wi) && !tiny(wi) {
+            return (r + eps).abs() <= t;
+        }
+        if wi > 0.0 && at_c(wi) {
+            return r >= eps - t;
+        }
+        if wi < 0.0 && at_c(wi) {
+            return r <= -eps + t;
+        }
+        // tiny but non-zero weight: accept the interior-of-box reading as well
+        (r.abs() - eps).abs() <= t
+    };
+    let resid: Vec<f64> = (0..n).map(|i| y[i] - f[i]).collect();
+    let full_ok = |map: &[usize]| -> bool {
+        let mut wrow = vec![0.0; n];
+        for (i, r) in map.iter().enumerate() {
+            wrow[*r] = w[i];
+        }
+        (0..n).all(|r| kkt(wrow[r], resid[r]))
+    };
+    // enumerate order-preserving embeddings
+    let mut found = false;
+    let mut any_embedding = false;
+    {
+        fn rec(i: usize, start: usize, svs: &[Vec<f64>], rows: &[Vec<f64>], map: &mut Vec<usize>, any: &mut bool, f: &dyn Fn(&[usize]) -> bool) -> bool {
+            if i == svs.len() {
+                *any = true;
+                return f(map);
+            }
+            for r in start..rows.len() {
+                if rows[r] == svs[i] {
+                    map.push(r);
+                    if rec(i + 1, r + 1, svs, rows, map, any, f) {
+                        return true;
+                    }
+                    map.pop();
+                }
+            }
+            false
+        }
+        let mut map = Vec::new();
+        if rec(0, 0, &svs, &pts, &mut map, &mut any_embedding, &full_ok) {
+            found = true;
+        }
+    }
+    if !any_embedding {
+        mc::violation(format!("{}:sv-not-training-rows", site), format!("{}: support vectors {:?} are not training rows in order", ctx, svs));
+    } else if !found {
+        mc::violation(format!("{}:kkt", site), format!("{}: epsilon-insensitive optimality conditions violated beyond tol: w={:?} on support vectors {:?}, residuals y-f={:?}", ctx, w, svs, resid));
+    }
+    if w.iter().any(|v| at_c(*v)) {
+        mc::count("svr_at_C");
+    }
+    if w.len() < n {
+        mc::count("svr_zero_weight_rows");
+    }
+    mc::count("svr_fits");
+    mc::nontrivial();
+    let mut obs: Vec<f64> = w.iter().map(|v| mc::hash::round_sig(*v, 9)).collect();
+    obs.push(mc::hash::round_sig(b, 9));
+    mc::outcome(mc::hash::h_f64s(&obs));
+    mc::describe(|| json!({"op": "SVR::fit", "x": pts, "y": y, "kernel": kname, "eps": eps, "C": c, "tol": tol, "support_vectors": svs, "w": w, "b": b, "residuals": resid}));
+}
+
+fn ulp_close(a: f64, b: f64, ulps: f64) -> bool {
+    if a == b {
+        return true;
+    }
+    (a - b).abs() <= ulps * f64::EPSILON * a.abs().max(b.abs()).max(f64::MIN_POSITIVE)
+}
+
+fn kernel_case(job: &Job) {
+    let len = job.u("len");
+    let sigma = [0.0, 1.0, -1.0, 2.0, -2.0];
+    let alpha = if len == 3 && !job.b("full") { 3 } else { 5 };
+    let a: Vec<f64> = (0..len).map(|_| sigma[mc::choose(alpha)]).collect();
+    let b: Vec<f64> = (0..len).map(|_| sigma[mc::choose(alpha)]).collect();
+    for kname in ["linear", "rbf", "poly", "poly3", "sigmoid"] {
+        let kn = Kn::from_name(kname);
+        let lib = |u: &Vec<f64>, v: &Vec<f64>| -> Result<f64, mc::PanicInfo> {
+            mc::guard(|| match kn {
+                Kn::Linear => Kernels::linear().apply(u, v),
+                Kn::Rbf(g) => Kernels::rbf(g).apply(u, v),
+                Kn::Poly(d, g, c0) => Kernels::polynomial(d, g, c0).apply(u, v),
+                Kn::Sigmoid(g, c0) => Kernels::sigmoid(g, c0).apply(u, v),
+            })
+        };
+        match (lib(&a, &b), lib(&b, &a)) {
+            (Ok(kab), Ok(kba)) => {
+                let want = kn.eval(&a, &b);
+                if !ulp_close(kab, want, 4.0) {
+                    mc::violation(format!("kernel.{}:closed-form", kname), format!("K({:?},{:?})={} but the closed form gives {}", a, b, kab, want));
+                }
+                if kab.to_bits() != kba.to_bits() {
+                    mc::violation(format!("kernel.{}:asymmetric", kname), format!("K({:?},{:?})={} but K(b,a)={}", a, b, kab, kba));
+                }
+                mc::outcome(kab.to_bits());
+            }
+            (Err(p), _) | (_, Err(p)) => mc::violation(format!("kernel.{}:panic", kname), format!("K({:?},{:?}): {}", a, b, p.brief())),
+        }
+    }
+    mc::count("kernel_pairs");
+    mc::nontrivial();
+    mc::describe(|| json!({"op": "kernel", "a": a, "b": b}));
+}
+
+fn gram_case(job: &Job) {
+    let (n, dim) = (job.u("n"), job.u("dim"));
+    let side = if dim == 1 { 5 } else { 3 };
+    let pts: Vec<Vec<f64>> = (0..n).map(|_| (0..dim).map(|_| mc::choose(side) as f64 - 1.0).collect()).collect();
+    for kname in ["linear", "rbf"] {
+        let kn = Kn::from_name(kname);
+        let g: Vec<Vec<f64>> = (0..n)
+            .map(|i| {
+                (0..n)
+                    .map(|j| match kn {
+                        Kn::Linear => Kernels::linear().apply(&pts[i], &pts[j]),
+                        Kn::Rbf(gm) => Kernels::rbf(gm).apply(&pts[i], &pts[j]),
+                        _ => unreachable!(),
+                    })
+                    .collect()
+            })
+            .collect();
+        let (d, _) = jacobi_eig(&g);
+        let tr: f64 = (0..n).map(|i| g[i][i]).sum();
+        let lmin = d.last().copied().unwrap_or(0.0);
+        if !(lmin >= -1e-10 * tr.max(1e-300)) {
+            mc::violation(format!("kernel.{}:gram-not-psd", kname), format!("Gram matrix of {:?} has eigenvalue {} (trace {})", pts, lmin, tr));
+        }
+        mc::outcome(mc::hash::h_f64s_rounded(&d, 10));
+    }
+    mc::count("gram_matrices");
+    mc::nontrivial();
+    mc::describe(|| json!({"op": "gram", "points": pts}));
+}
+
+fn prefixes(len: usize, side: usize) -> Vec<Vec<usize>> {
+    let mut out = vec![Vec::new()];
+    for _ in 0..len {
+        out = out
+            .into_iter()
+            .flat_map(|p| {
+                (0..side).map(move |c| {
+                    let mut q = p.clone();
+                    q.push(c);
+                    q
+                })
+            })
+            .collect();
+    }
+    out
+}
+
+/// every 4-subset (5-subset) of the 3x2 lattice, in row-major order
+fn lattice_subsets(k: usize) -> Vec<Vec<Vec<f64>>> {
+    let all: Vec<Vec<f64>> = (0..6).map(|i| vec![(i % 3) as f64, (i / 3) as f64]).collect();
+    let mut out = Vec::new();
+    for mask in 0u32..64 {
+        if mask.count_ones() as usize == k {
+            out.push((0..6).filter(|i| (mask >> i) & 1 == 1).map(|i| all[i].clone()).collect());
+        }
+    }
+    out
+}
+
+impl Harness for C10 {
+    fn id(&self) -> &'static str {
+        "C10"
+    }
+
+    fn plan(&self, tier: Tier, _seed: u64) -> Plan {
+        let t = tier.is_thorough();
+        let mut jobs = Vec::new();
+        let kernels = ["linear", "rbf", "poly", "sigmoid"];
+        // parameter settings: (C, tol, encoding index)
+        let settings: Vec<(f64, f64, usize)> = if t {
+            let mut v = Vec::new();
+            for c in [0.1, 1.0, 100.0] {
+                for tol in [1e-2, 1e-4] {
+                    for enc in 0..3 {
+                        v.push((c, tol, enc));
+                    }
+                }
+            }
+            v
+        } else {
+            vec![(0.1, 1e-2, 0), (100.0, 1e-2, 0), (1.0, 1e-4, 0), (1.0, 1e-4, 2)]
+        };
+        // kernels on vector pairs and Gram matrices (cheap, first)
+        for len in 1..=3usize {
+            jobs.push(Job::new(format!("kernel-pairs-len{}", len), json!({"kind": "kernel", "len": len, "full": t})));
+        }
+        for (n, dim) in [(2usize, 1usize), (3, 1), (4, 1), (2, 2), (3, 2), (4, 2)] {
+            if !t && n == 4 && dim == 2 {
+                continue;
+            }
+            jobs.push(Job::new(format!("gram-n{}-d{}", n, dim), json!({"kind": "gram", "n": n, "dim": dim})));
+        }
+        // SVC, n = 4, epoch 1: all (4!)^2 visiting orders
+        for k in kernels {
+            for &(c, tol, enc) in &settings {
+                for pre in prefixes(2, 3) {
+                    jobs.push(Job::new(format!("svc-1d-n4-e1-{}-C{}-tol{}-enc{}-pre{:?}", k, c, tol, enc, pre), json!({"kind": "svc", "n": 4, "dim": 1, "kernel": k, "C": c, "tol": tol, "epoch": 1, "enc": enc, "pre": pre})));
+                }
+            }
+        }
+        // SVC on 2-D lattice subsets, n = 4
+        for (si, pts) in lattice_subsets(4).into_iter().enumerate() {
+            for k in kernels {
+                let sets: Vec<(f64, f64, usize)> = if t { settings.clone() } else { vec![(1.0, 1e-4, 0)] };
+                for (c, tol, enc) in sets {
+                    jobs.push(Job::new(format!("svc-2d-subset{}-e1-{}-C{}-tol{}-enc{}", si, k, c, tol, enc), json!({"kind": "svc", "n": 4, "dim": 2, "kernel": k, "C": c, "tol": tol, "epoch": 1, "enc": enc, "points": pts})));
+                }
+            }
+        }
+        // SVC, n = 4, epoch 2: all (4!)^3 orders — quick: sequences starting 0,1,2 only, one setting
+        for k in kernels {
+            let sets: Vec<(f64, f64, usize)> = if t { settings.clone() } else { vec![(1.0, 1e-4, 0)] };
+            for (c, tol, enc) in sets {
+                for pre in prefixes(3, 3) {
+                    if !t && pre != vec![0, 1, 2] && pre != vec![1, 0, 1] {
+                        continue;
+                    }
+                    jobs.push(Job::new(format!("svc-1d-n4-e2-{}-C{}-tol{}-enc{}-pre{:?}", k, c, tol, enc, pre), json!({"kind": "svc", "n": 4, "dim": 1, "kernel": k, "C": c, "tol": tol, "epoch": 2, "enc": enc, "pre": pre})));
+                }
+            }
+        }
+        // SVC, n = 5, epoch 1: all (5!)^2 = 14400 orders (thorough)
+        if t {
+            for k in kernels {
+                for (c, tol, enc) in [(1.0, 1e-4, 0usize), (100.0, 1e-2, 2)] {
+                    for pre in prefixes(4, 3) {
+                        jobs.push(Job::new(format!("svc-1d-n5-e1-{}-C{}-tol{}-enc{}-pre{:?}", k, c, tol, enc, pre), json!({"kind": "svc", "n": 5, "dim": 1, "kernel": k, "C": c, "tol": tol, "epoch": 1, "enc": enc, "pre": pre})));
+                    }
+                }
+            }
+        }
+        // SVC, n = 6..8, deviation-bounded orders, epochs up to 4
+        let big: Vec<Vec<Vec<f64>>> = vec![
+            (0..6).map(|i| vec![(i % 3) as f64, (i / 3) as f64]).collect(),
+            (0..7).map(|i| vec![((i * 3) % 7) as f64 * 0.5]).collect(),
+            (0..8).map(|i| vec![(i % 4) as f64, (i / 4) as f64 * 2.0, ((i * 5) % 3) as f64]).collect(),
+        ];
+        for (bi, pts) in big.iter().enumerate() {
+            for k in kernels {
+                for epoch in [1usize, 2, 4] {
+                    if !t && (epoch == 4 || bi == 2) {
+                        continue;
+                    }
+                    for (c, tol) in [(1.0, 1e-3), (100.0, 1e-4)] {
+                        jobs.push(
+                            Job::new(format!("svc-big{}-e{}-{}-C{}-dev", bi, epoch, k, c), json!({"kind": "svc", "n": pts.len(), "dim": pts[0].len(), "kernel": k, "C": c, "tol": tol, "epoch": epoch, "enc": 0, "points": pts, "dev": true}))
+                                .with_dev_bound(if t { 2 } else { 1 }),
+                        );
+                    }
+                }
+            }
+        }
+        // SVR
+        for k in ["linear", "rbf", "poly"] {
+            for n in 2..=(if t { 5 } else { 4 }) {
+                for eps in [0.0, 0.1, 0.5] {
+                    for c in [0.1, 1.0, 100.0] {
+                        for tol in [1e-2, 1e-3, 1e-4] {
+                            if !t && n == 4 && tol == 1e-3 {
+                                continue;
+                            }
+                            jobs.push(Job::new(format!("svr-n{}-{}-eps{}-C{}-tol{}", n, k, eps, c, tol), json!({"kind": "svr", "n": n, "kernel": k, "eps": eps, "C": c, "tol": tol})));
+                        }
+                    }
+                }
+            }
+        }
+        // SVR structured larger sets
+        for n in [8usize, 20, 40, 80] {
+            if !t && n > 20 {
+                continue;
+            }
+            for variant in 0..3usize {
+                let pts: Vec<Vec<f64>> = (0..n).map(|i| vec![i as f64 * 0.25, ((i * 7) % 5) as f64]).collect();
+                let y: Vec<f64> = (0..n).map(|i| match variant {
+                    0 => 0.5 * i as f64 * 0.25 + 1.0,
+                    1 => ((i % 5) as f64 - 2.0) * 0.7,
+                    _ => if i % 7 == 0 { 5.0 } else { (i as f64 * 0.1).floor() },
+                }).collect();
+                for k in ["linear", "rbf"] {
+                    for (eps, c) in [(0.1, 1.0), (0.0, 10.0), (0.5, 0.1)] {
+                        jobs.push(Job::new(format!("svr-structured-n{}-v{}-{}-eps{}-C{}", n, variant, k, eps, c), json!({"kind": "svr", "n": n, "kernel": k, "eps": eps, "C": c, "tol": 1e-3, "points": pts, "targets": y})));
+                    }
+                }
+            }
+        }
+        Plan {
+            jobs,
+            budget_s: if t { 2700 } else { 40 },
+            case_deadline_ms: 20_000,
+            floors: vec![("svc_fits", 100_000), ("svc_non_identity_orders", 100_000), ("svc_clipped_at_C", 1000), ("svr_fits", 10_000), ("svr_at_C", 100), ("svr_zero_weight_rows", 100), ("kernel_pairs", 500), ("gram_matrices", 100)],
+            bounds: json!({
+                "svc_all_orders": "every x sequence over {0,1,2}^4 x every labelling with both classes x 4 kernels x (C,tol,encoding) settings x ALL (4!)^2 visiting orders (epoch 1); 2-D: every 4-subset of the 3x2 lattice; epoch 2 ((4!)^3 orders) on two sequence families (all in thorough); n=5 with all (5!)^2 orders in thorough",
+                "svc_deviation_bounded": "n=6..8 fixed point sets, epochs 1,2(,4): every schedule with at most 1 (2 thorough) non-identity Fisher-Yates steps",
+                "svr": "every x sequence over {0,1,2}^n, y over {-1,0,2}^n, n<=4 (5 thorough) x eps {0,.1,.5} x C {.1,1,100} x tol {1e-2,1e-3,1e-4} x {linear,rbf,poly}; structured sets up to n=20 (80)",
+                "kernels": "every vector pair of length <=2 over {0,±1,±2} and length 3 over {0,±1} (all in thorough); Gram matrices of every point sequence n<=4",
+            }),
+        }
+    }
+
+    fn run(&self, job: &Job) {
+        match job.kind() {
+            "svc" => svc_case(job),
+            "svr" => svr_case(job),
+            "kernel" => kernel_case(job),
+            "gram" => gram_case(job),
+            other => panic!("unknown job kind {}", other),
+        }
+    }
+
+    fn cleanup(&self) {
+        release_rng();
+    }
+
+    fn rule(&self) -> String {
+        "one execution = one (training set, labelling/targets, kernel, C, tol, epochs/epsilon) and, for SVC, one complete sequence of Fisher-Yates answers for all 1+epochs shuffles; non-trivial = a model was returned and checked; distinct = digest of (support vectors, rounded coefficients, intercept)".into()
+    }
+
+    fn assumptions(&self) -> Vec<String> {
+        vec![
+            "the chooser-driven Fisher-Yates of the seam produces exactly the permutations rand's shuffle can produce".into(),
+            "models are read through their serde serialisation (instances, w, b, classes)".into(),
+            "support vectors are matched to training rows by value; with duplicated rows any consistent matching is accepted (library's favour)".into(),
+            "SVR KKT slack = tol + 1e-9 (calibrated worst case 0.5*tol)".into(),
+            "the RNG call sites of /repo/src equal /verif/rng_sites.allow (checked at start-up)".into(),
+        ]
+    }
+}
+
 fn main() {
-    eprintln!("MACHINERY-ERROR: harness C10 not built yet");
-    std::process::exit(2);
+    if let Err(e) = mc_sc::check_rng_sites() {
+        eprintln!("MACHINERY-ERROR: {}", e);
+        std::process::exit(2);
+    }
+    mc::main(C10)
 }
